@@ -419,7 +419,7 @@ func c10ProbeAnswered(b []byte, serial, id uint16) bool {
 // ContainTimeouts: how long a probe waits for an answer that is expected / for silence to be believed
 var (
 	ContainWaitAnswer  = 4 * time.Second
-	ContainWaitSilence = 250 * time.Millisecond
+	ContainWaitSilence = 150 * time.Millisecond
 )
 
 // c10Expect808: does the real parser, fed the same reads in-process, deliver the probe frame (then its
